@@ -1,5 +1,5 @@
 """C09 -- eventuals and futures become ready exactly once and wake every waiter."""
-from vr import Obl
+from vr import Obl, deepen
 
 META = {
     "explanation": "E2: wait and set of eventuals/futures as focus (real code), racing real set/test calls of other agents placed by the solver at every "
@@ -26,6 +26,7 @@ def obligations(tier):
                          encodes=["ABT_eventual_wait", "ABT_eventual_set", "ABT_eventual_test", "ABT_future_wait", "ABT_future_set", "ABT_future_test", "ABTI_waitlist_wait_and_unlock", "ABTI_waitlist_broadcast"],
                          bounds="<=2 racing sets, <=1 environment step per scheduling point, <=3 while parked, 0..3 compartments", symbolic="initial readiness/counter, values, placement of every environment step",
                          timeout=600 if tier == "thorough" else 200))
+    o += deepen([x for x in o if x.hooks], tier)
     return o
 
 MANIFEST_ENTRY = {
